@@ -33,8 +33,9 @@ RULE = (
     "0,1,3; suffixes SNAPSHOT, beta1, rc2), biased towards the version's own major, plus master, main and unrelated names (feature/x, "
     "fix-123, 8.x, v7.1, 123-fix, 7-backport, 7.1-wip); version = M.m.p[-s] from the same pools, or None, '' or 'serverless'. "
     "Exhaustive sub-domain: every subset of a fixed branch universe (quick 12 names = 4096 subsets, thorough 14 names = 16384) x 60 "
-    "versions. Thorough only: git cases = such a branch set (always with master) materialised with git fast-import as a local-only "
+    "versions. 1 case in 20 (thorough 1 in 60): git cases = such a branch set (always with master) materialised with git fast-import as a local-only "
     "repository or as a bare file:// remote that RallyRepository clones, optional v-tags, optional local branches left by earlier runs, "
+    "a start on a look-alike of the wanted branch (1.7 / 7.7 / 7.0 for 7), optionally an earlier update for a nearby version and an uncommitted local edit, "
     "then the real RallyRepository.update(version). Non-trivial = the reference's winning rule is prior-minor, major or master and the "
     "set contains >= 1 distractor (branch of another major or of a later minor). Distinct = distinct canonical JSON."
 )
